@@ -45,7 +45,9 @@ API
 ``.validations`` (canonical paths), ``.bindings`` (build-block variables, expanded), ``.lineno``,
 ``.get(var)`` -> expanded value with the full lookup order (``edge.get('command')``, ``'depfile'``,
 ``'rspfile'``, ``'rspfile_content'``, ``'description'``, ``'pool'``, ``'deps'``...), ``.command`` property,
-``.all_ins()``, ``.all_outs()``, ``.is_phony``.
+``.all_ins()``, ``.all_outs()``, ``.is_phony``, ``.bound(var)`` (bound by the build block or the rule),
+``.rsp_view()`` / ``.meta_view()`` (response-file view and special rule variables, projected as ``M.edge_rsp`` /
+``M.edge_meta``; ``M.rule_meta`` holds the unexpanded rule-level values, ``M.pool_depths`` the depths of ``M.pools``).
 
 ``unescape(text)`` decodes a ``$``-escaped text without variables (used by C03);
 ``shell_escape(path)`` is how ``$in``/``$out`` quote a path for a POSIX shell.
@@ -201,6 +203,35 @@ class Edge:
     def command(self) -> str:
         return '' if self.is_phony else self.get('command')
 
+    def bound(self, var: str) -> bool:
+        """Is ``var`` bound for this edge by its build block or by its rule (whatever it expands to)."""
+        if var in self.bindings:
+            return True
+        rule = self.manifest.rules.get(self.rule)
+        return rule is not None and var in rule.bindings
+
+    def rsp_view(self) -> T.Dict[str, T.Any]:
+        """Response-file view of the statement ("Rule variables": rspfile, rspfile_content): ninja writes a
+        response file iff ``rspfile`` expands to a non-empty path; is there content for it; does the expanded
+        command name the file; the two expanded lengths."""
+        try:
+            cmd = self.command
+            rspfile = self.get('rspfile')
+            content = self.get('rspfile_content')
+        except NinjaSyntaxError:
+            cmd = rspfile = content = ''
+        return {'file': rspfile != '', 'content': content != '' or self.bound('rspfile_content'),
+                'used': rspfile != '' and rspfile in cmd, 'cmdlen': len(cmd), 'rsplen': len(content)}
+
+    def meta_view(self) -> T.Dict[str, T.Any]:
+        """The special rule variables of the statement, expanded ("Rule variables": deps, depfile, generator,
+        restat - the last two are booleans: present and non-empty)."""
+        try:
+            return {'deps': self.get('deps'), 'depfile': self.get('depfile'),
+                    'generator': self.get('generator') != '', 'restat': self.get('restat') != ''}
+        except NinjaSyntaxError:
+            return {'deps': '', 'depfile': '', 'generator': False, 'restat': False}
+
     def to_json(self, with_commands: bool = False) -> T.Dict[str, T.Any]:
         d: T.Dict[str, T.Any] = {
             'rule': self.rule, 'line': self.lineno,
@@ -244,6 +275,12 @@ class Manifest:
             'pools': sorted(self.pools),
             'edges': [e.to_json(with_commands) for e in self.edges],
             'edge_pools': [e.get('pool') for e in self.edges],
+            'edge_rsp': [e.rsp_view() for e in self.edges],
+            'edge_meta': [e.meta_view() for e in self.edges],
+            'rule_meta': [{'name': n, **{v: (r.bindings[v].unparsed() if v in r.bindings else '')
+                                         for v in ('deps', 'depfile', 'restat', 'generator', 'pool', 'description')}}
+                          for n, r in sorted(self.rules.items())],
+            'pool_depths': [self.pools[n] for n in sorted(self.pools)],
             'defaults': list(self.defaults),
             'errors': list(self.errors),
         }
